@@ -461,6 +461,13 @@ fn dummy_migrated(u: &U, addr: &Address) -> bool {
 fn workload_c_real_swap(ctx: &Ctx, rep: &mut Report, rng: &mut Rng, mut u: U, owner: Address, stranger: Address, upgrader: Address) {
     let addr = u.env.register(VersionedTarget, (&owner,));
     let hash = u.env.deployer().upload_contract_wasm(Bytes::from_slice(&u.env, DUMMY_WASM));
+    // one time in four the target already reports the version of the code it is asked to move to:
+    // the request then names the current version and must be refused, whatever the new code says
+    if rng.chance(1, 4) {
+        let a = addr.clone();
+        u.setup(move |env| VersionedTargetClient::new(env, &a).set_base(&sstr(env, b"0.2.0")));
+        rep.count("upgrader:target-already-at-the-new-code's-version");
+    }
     u.skip_events();
     let cur = version_of(&mut u, &addr);
     let vclass = *rng.pick(&["same", "correct", "correct", "wrong", "correct-spelled-differently"]);
@@ -502,7 +509,7 @@ fn workload_c_real_swap(ctx: &Ctx, rep: &mut Report, rng: &mut Rng, mut u: U, ow
         "none" => Auth::Nobody,
         _ => Auth::Forest(owner_trees.iter().map(|(_, i)| (sc_addr(&stranger), i.clone())).collect()),
     };
-    let completes = vclass == "correct" && aclass == "both" && dclass == "well-typed";
+    let completes = vclass == "correct" && aclass == "both" && dclass == "well-typed" && requested != cur;
     rep.step(format!("C(real swap to dummy.wasm): version={} auth={} data={} (owner trees recorded: {}) want_complete={}", vclass, aclass, dclass, owner_trees.len(), completes));
     let exec0 = executable_of(&u, &addr);
     let o = u.call(auth, &f);
